@@ -184,6 +184,30 @@ func init() {
 		}
 		return tZero
 	})
+	// events emitted so far (one list per execution; harnesses bracket an operation with two marks)
+	reg(P+"EventMark", func(e *Exec, _ *ssa.Function, a []Value) Value {
+		return mkInt64(int64(len(e.env.events)))
+	})
+	reg(P+"SameEvents", func(e *Exec, _ *ssa.Function, a []Value) Value {
+		a0, a1 := e.concreteInt(a[0], "nd.SameEvents"), e.concreteInt(a[1], "nd.SameEvents")
+		b0, b1 := e.concreteInt(a[2], "nd.SameEvents"), e.concreteInt(a[3], "nd.SameEvents")
+		if a1-a0 != b1-b0 {
+			return tFalse
+		}
+		cs := []*Term{tTrue}
+		for i := 0; i < a1-a0; i++ {
+			x, y := e.env.events[a0+i], e.env.events[b0+i]
+			if len(x.attrs) != len(y.attrs) {
+				return tFalse
+			}
+			cs = append(cs, e.valEq(x.typ, y.typ))
+			for j := range x.attrs {
+				xa, ya := x.attrs[j].(*Opaque).data.([2]Value), y.attrs[j].(*Opaque).data.([2]Value)
+				cs = append(cs, e.valEq(xa[0], ya[0]), e.valEq(xa[1], ya[1]))
+			}
+		}
+		return e.tc.And(cs...)
+	})
 	reg(P+"Param", func(e *Exec, _ *ssa.Function, a []Value) Value {
 		name := strArg(a[0], "nd.Param")
 		if v, ok := e.h.params[name]; ok {
